@@ -47,6 +47,7 @@ class Roles:
         self.sched = cands[0]
         self.RUN = self.sched.methods['co_run']
         self._note('scheduler class', self.sched.name)
+        self._refuse_state_machine()
         # ---- job base class
         cands = [c for c in p.classes.values()
                  if all(m in c.methods for m in ('co_run', 'co_shutdown', 'requires', 'is_done'))]
@@ -97,6 +98,35 @@ class Roles:
                             if isinstance(a, ast.Name):
                                 wraps.append((g, a.id, bn))
                                 self.WRAP_BODY = bf
+            if not wraps:
+                # ... through one more private coroutine of the class:
+                #   wrapped() awaits self._run_windowed(job), which awaits self._run_in_slot(job, slot)
+                for bf, bvar, bn in bodies:
+                    for m in p.all_functions():
+                        if m.parent is not None or not m.is_async or m.cls is not bf.cls or m is bf \
+                                or not m.name.startswith('_'):
+                            continue
+                        mvar = None
+                        for n in walk_local(m.node):
+                            if isinstance(n, ast.Await) and isinstance(n.value, ast.Call) \
+                                    and isinstance(n.value.func, ast.Attribute) and n.value.func.attr == bf.name:
+                                pos = bf.params[1:].index(bvar)
+                                a = n.value.args[pos] if len(n.value.args) > pos else None
+                                if isinstance(a, ast.Name) and a.id in m.params[1:]:
+                                    mvar = a.id
+                        if mvar is None:
+                            continue
+                        for g in p.all_functions():
+                            if g.parent is None or not g.is_async:
+                                continue
+                            for n in walk_local(g.node):
+                                if isinstance(n, ast.Await) and isinstance(n.value, ast.Call) \
+                                        and isinstance(n.value.func, ast.Attribute) and n.value.func.attr == m.name:
+                                    pos = m.params[1:].index(mvar)
+                                    a = n.value.args[pos] if len(n.value.args) > pos else None
+                                    if isinstance(a, ast.Name):
+                                        wraps.append((g, a.id, bn))
+                                        self.WRAP_BODY = bf
         partial_factory = None
         if not wraps:
             # no closure at all: `return functools.partial(self._run_in_slot, job)`
@@ -157,6 +187,40 @@ class Roles:
         self._note('sequence class', self.sequence.name if self.sequence else None)
 
     # ------------------------------------------------------------------
+    def _refuse_state_machine(self):
+        """a main loop written as an explicit automaton (`while state != OVER: if state == WAIT: ... elif state ==
+        TRIAGE: ...`) spreads one round over several iterations: what a round learns (nothing completed, a critical job
+        raised) is carried by the state variable alone, which the path analysis does not follow across iterations"""
+        for c in self.sched.mro:
+            for f in c.methods.values():
+                parents = {}
+                for n in ast.walk(f.node):
+                    for ch in ast.iter_child_nodes(n):
+                        parents[ch] = n
+                for n in walk_local(f.node):
+                    if not (isinstance(n, ast.Call) and dotted(n.func) == 'asyncio.wait' and any(
+                            k.arg == 'return_when' and (dotted(k.value) or '').endswith('FIRST_COMPLETED')
+                            for k in n.keywords)):
+                        continue
+                    q = parents.get(n)
+                    while q is not None and not isinstance(q, (ast.While, ast.For, ast.AsyncFunctionDef)):
+                        par = parents.get(q)
+                        if isinstance(par, ast.If) and isinstance(par.test, ast.Compare) and len(par.test.ops) == 1 \
+                                and isinstance(par.test.ops[0], (ast.Eq, ast.Is)) and isinstance(par.test.left, ast.Name):
+                            var = par.test.left.id
+                            loop = par
+                            while loop is not None and not isinstance(loop, (ast.While, ast.For)):
+                                loop = parents.get(loop)
+                            if loop is not None:
+                                stores = [m for b in loop.body for m in ast.walk(b) if isinstance(m, ast.Name)
+                                          and m.id == var and isinstance(m.ctx, ast.Store)]
+                                if len(stores) >= 2:
+                                    raise AnalysisError(
+                                        "%s:%d the main loop of %s is written as a state machine over `%s`: one round "
+                                        "of the run is spread over several iterations, which this analysis does not "
+                                        "follow" % (f.module.relpath, par.lineno, f.qualname, var))
+                        q = par
+
     def _has_first_completed_wait_in_loop(self, f, depth=0):
         # the loop may live in a private coroutine that co_run awaits on self
         # (`return await self._co_run()`): follow such delegations, two levels at most
@@ -169,12 +233,26 @@ class Roles:
                     if g is not None and g is not f and g.is_async and g.name != 'co_shutdown' \
                             and self._has_first_completed_wait_in_loop(g, depth + 1):
                         return True
+        def has_wait(root):
+            for m in ast.walk(root):
+                if isinstance(m, ast.Call) and dotted(m.func) == 'asyncio.wait':
+                    for k in m.keywords:
+                        if k.arg == 'return_when' and (dotted(k.value) or '').endswith('FIRST_COMPLETED'):
+                            return True
+            return False
         for n in walk_local(f.node):
             if isinstance(n, (ast.While, ast.For)):
-                for m in ast.walk(n):
-                    if isinstance(m, ast.Call) and dotted(m.func) == 'asyncio.wait':
-                        for k in m.keywords:
-                            if k.arg == 'return_when' and (dotted(k.value) or '').endswith('FIRST_COMPLETED'):
+                if has_wait(n):
+                    return True
+                # the body of the loop may live in a private coroutine awaited once per round
+                if f.cls is not None:
+                    for m in ast.walk(n):
+                        if isinstance(m, ast.Await) and isinstance(m.value, ast.Call) \
+                                and isinstance(m.value.func, ast.Attribute) \
+                                and isinstance(m.value.func.value, ast.Name) and m.value.func.value.id == 'self' \
+                                and m.value.func.attr.startswith('_'):
+                            g = self.prog.supplier(f.cls, m.value.func.attr)
+                            if g is not None and g is not f and g.is_async and has_wait(g.node):
                                 return True
         return False
 
@@ -188,7 +266,9 @@ class Roles:
                     for t in n.targets:
                         if isinstance(t, ast.Name):
                             tasknames.add(t.id)
-            if not tasknames:
+            direct = any(isinstance(n, ast.Call) and any(isinstance(a, ast.Call) and dotted(a.func) in TASK_MAKERS
+                                                         for a in n.args) for n in walk_local(f.node))
+            if not tasknames and not direct:
                 continue
             reg = rev = None
             for n in walk_local(f.node):
@@ -204,22 +284,24 @@ class Roles:
                 # `def _attach(self, task): task.<rev> = self; self.<reg> = task`
                 for n in walk_local(f.node):
                     if isinstance(n, ast.Call) and isinstance(n.func, ast.Attribute):
-                        pos = [i for i, a in enumerate(n.args) if isinstance(a, ast.Name) and a.id in tasknames]
+                        pos = [i for i, a in enumerate(n.args) if (isinstance(a, ast.Name) and a.id in tasknames)
+                               or (isinstance(a, ast.Call) and dotted(a.func) in TASK_MAKERS)]
                         if not pos:
                             continue
                         for c in self.prog.classes.values():
                             g = c.methods.get(n.func.attr)
-                            if g is None or len(g.params) <= pos[0] + 1:
+                            off = 0 if (g is not None and g.is_static) else 1
+                            if g is None or len(g.params) <= pos[0] + off:
                                 continue
-                            par = g.params[pos[0] + 1]
-                            me = g.params[0]
+                            par = g.params[pos[0] + off]
+                            others = [x for x in g.params if x != par]      # (self of a method, `job` of a static one)
                             for m in walk_local(g.node):
                                 if isinstance(m, ast.Assign) and isinstance(m.value, ast.Name):
                                     for t in m.targets:
                                         if isinstance(t, ast.Attribute) and isinstance(t.value, ast.Name):
-                                            if m.value.id == par and t.value.id == me:
+                                            if m.value.id == par and t.value.id in others:
                                                 reg = t.attr
-                                            elif m.value.id == me and t.value.id == par:
+                                            elif m.value.id in others and t.value.id == par:
                                                 rev = t.attr
             if reg:
                 found.append((reg, rev, f))
@@ -345,6 +427,17 @@ class Roles:
                     break
             if len(hits) == 1:
                 return hits[0]
+        if len(attrs) > 1:
+            # ... or the only one of them that the run itself stores (the others are configuration: the member set, ...)
+            stored = set()
+            run = self.prog.supplier(self.sched, 'co_run')
+            if run is not None:
+                for n in walk_local(run.node):
+                    if isinstance(n, ast.Attribute) and isinstance(n.ctx, ast.Store) and isinstance(n.value, ast.Name) \
+                            and n.value.id == 'self' and n.attr in attrs:
+                        stored.add(n.attr)
+            if len(stored) == 1:
+                return stored.pop()
         if len(attrs) != 1:
             raise AnalysisError("accessor %s reads %d attributes of self" % (name, len(attrs)))
         return attrs.pop()
@@ -353,24 +446,51 @@ class Roles:
 
     def _deadline(self):
         found = []
+
+        def is_clock(m):
+            return isinstance(m, ast.Call) and (dotted(m.func) or '').endswith(
+                ('time.time', 'monotonic', 'perf_counter', 'loop.time', '.time'))
         for c in self.sched.mro:
             for f in c.methods.values():
+                # locals that hold a reading of the clock (`now = time.time()`, possibly under `if now is None:`)
+                clock_locals = {}
+                for n in walk_local(f.node):
+                    if isinstance(n, ast.Assign) and len(n.targets) == 1 and isinstance(n.targets[0], ast.Name) \
+                            and is_clock(n.value):
+                        clock_locals[n.targets[0].id] = dotted(n.value.func)
                 for n in walk_local(f.node):
                     if isinstance(n, ast.Assign):
                         for t in n.targets:
                             if isinstance(t, ast.Attribute) and isinstance(t.value, ast.Name) \
                                     and t.value.id == 'self':
                                 for m in ast.walk(n.value):
-                                    if isinstance(m, ast.Call) and (dotted(m.func) or '').endswith(
-                                            ('time.time', 'monotonic', 'perf_counter', 'loop.time', '.time')):
+                                    if is_clock(m):
                                         found.append((t.attr, dotted(m.func)))
+                                    elif isinstance(m, ast.Name) and m.id in clock_locals:
+                                        found.append((t.attr, clock_locals[m.id]))
         attrs = {a for a, _ in found}
         if len(attrs) == 1:
             return found[0]
         return (None, None)
 
     def _guard(self):
-        for s in self.BROADCAST.node.body:
+        g = self._guard_in(self.BROADCAST.node.body)
+        if g is not None:
+            return g
+        # the first phase of the broadcast may live in a private helper called at its top (`tasks = self._begin()`)
+        for s in self.BROADCAST.node.body[:3]:
+            for n in ast.walk(s):
+                if isinstance(n, ast.Call) and isinstance(n.func, ast.Attribute) and isinstance(n.func.value, ast.Name) \
+                        and n.func.value.id == 'self' and n.func.attr.startswith('_'):
+                    h = self.prog.supplier(self.sched, n.func.attr)
+                    if h is not None and h is not self.BROADCAST:
+                        g = self._guard_in(h.node.body)
+                        if g is not None:
+                            return g
+        return None
+
+    def _guard_in(self, body):
+        for s in body:
             if isinstance(s, ast.If):
                 t = s.test
                 # `if self.flag:` - also spelt `self.flag is True`, `self.flag == True`, `self.flag is not False`
